@@ -10,7 +10,10 @@ LAYER_A = {"quick": ("{Rep(4, TRUE), Rep(6, TRUE), Rep(4, FALSE), Rep(6, FALSE)}
 
 
 def run(ctx):
-    ctx.rule = ("Layer A: every value pair of every equal-signedness pair of scaled reps x every pair of unit ratios through the modelled "
+    ctx.rule = ("Floating clause: for 10 rep pairs with a floating common rep x the same unit pairs, the six comparisons, + and - on grids of exactly "
+                "representable operands, near-equal operands and random values are judged by TLC (QuantityF.tla, exact dyadic arithmetic): exact "
+                "order when separated by more than 2^(3-p) relative or when both scaled operands are exact, sum/difference within 2^(3-p) of the "
+                "larger operand, exact when representable, result rep = usual arithmetic conversions.  Layer A: every value pair of every equal-signedness pair of scaled reps x every pair of unit ratios through the modelled "
                 "CastToCommon / Apply pipeline: comparisons = exact rational order, + - % exact, <=> agrees, mutual consistency, whenever "
                 "neither scaling overflows.  Layer B/C: TLC emits per (rep pair, unit pair) the cofactors and common-rep range (BigInt); a "
                 "comparator sweeps all 8-bit-valued operand pairs (and boundary/random wider values) through the real operators and every "
@@ -28,18 +31,22 @@ def run(ctx):
     g = ctx.tlc("Gen_Mixed.tla", env={"TIER": ctx.tier}, timeout=900, name="gen mixed instances")
     if not g.ok or len(g.cases) != g.distinct or not g.cases:
         raise core.ToolError("Gen_Mixed failed\n" + g.out[-1500:])
-    cases = [c for c in g.cases if c["enabled"]]
+    fcases = [c for c in g.cases if c["k"] == "mixedf"]
+    cases = [c for c in g.cases if c["enabled"] and c["k"] == "mixed"]
     disabled = [c for c in g.cases if not c["enabled"]]
 
     def make_src(b):
-        L = ['#include "mixed_sweep.hh"', "int main(int argc, char **argv) {", "  auv::MOpts o = auv::parse_mopts(argc, argv);"]
+        L = ['#include "mixedf_sweep.hh"', "int main(int argc, char **argv) {", "  auv::MOpts o = auv::parse_mopts(argc, argv);"]
         for c in b:
+            if c["k"] == "mixedf":
+                L.append('  auv::mixedf<%s, %sULL, %sULL, %s, %sULL, %sULL>("%s", "%s", o);' % (CXX_T[c["R1"]], c["N1"], c["D1"], CXX_T[c["R2"]], c["N2"], c["D2"], c["K1"], c["K2"]))
+                continue
             L.append('  auv::mixed<%s, %sULL, %sULL, %s, %sULL, %sULL, %s>("%s", "%s", "%s", "%s", "%s", "%s", o);' % (
                 CXX_T[c["R1"]], c["N1"], c["D1"], CXX_T[c["R2"]], c["N2"], c["D2"], "true" if c["own"] else "false",
                 c["K1"], c["K2"], c["lo"], c["hi"], c["plo"], c["phi"]))
         return "\n".join(L + ["  return 0;", "}"]) + "\n"
     groups = {}
-    for c in cases:
+    for c in cases + fcases:
         groups.setdefault((c["R1"], c["R2"]), []).append(c)
     if ctx.tier == "quick":
         cfgs, args = ["c20", "g14"], ["--seed", str(ctx.seed), "--nrandom", "2000", "--sample-shift", "11"]
@@ -77,6 +84,18 @@ def run(ctx):
                    "x": str(wire_to_int(r["x"])), "y": str(wire_to_int(r["y"]))}
             if json.dumps(key, sort_keys=True) + r["cfg"] not in badk:
                 raise core.ToolError("comparator mismatch not confirmed by TLC: %s" % json.dumps(r))
+    # floating clause
+    fobs = [r for r in recs if r["k"] == "mixedf"]
+    nvf, badf = ctx.tlc_batch_validate("Trace_MixedF.tla", fobs, name="mixedf", shards=core.NCPU, timeout=3000)
+    for b in badf:
+        r, v = b["rec"], b["v"]
+        fx = lambda rep, w: core.fval(w) if rep.startswith("f") else wire_to_int(w)
+        key = {"R1": r["R1"], "R2": r["R2"], "u1": "%d/%d" % (wire_to_int(r["N1"]), wire_to_int(r["D1"])), "u2": "%d/%d" % (wire_to_int(r["N2"]), wire_to_int(r["D2"])),
+               "x": str(fx(r["R1"], r["x"])), "y": str(fx(r["R2"], r["y"]))}
+        ctx.violation(key, "mixed-unit operators on %s(%s) [unit %s] vs %s(%s) [unit %s], result rep %s: lt=%d le=%d gt=%d ge=%d eq=%d ne=%d sum=%s dif=%s; exact order %s (products exact: %s, separated: %s)" % (
+            r["R1"], key["x"], key["u1"], r["R2"], key["y"], key["u2"], r["RC"], r["lt"], r["le"], r["gt"], r["ge"], r["eq"], r["ne"], core.fval(r["sum"]), core.fval(r["dif"]),
+            v["ord"], v["exact"], v["decided"]), detail=b)
+    ctx.layers["F"] = {"float_instances": len(fcases), "records_validated_by_TLC": nvf}
     for r in obs[:3]:
         ctx.sample({k: (wire_to_int(v) if isinstance(v, dict) else v) for k, v in r.items()})
     ctx.layers["BC"] = {"instances": len(cases), "disabled_by_policy": len(disabled), "operand_pairs_swept": swept, "records_validated_by_TLC": nval, "configs": cfgs}
